@@ -17,8 +17,17 @@ Request.multipart_form, Request.path_components) two monitors observe the real m
 Violations are classified by input predicates that must be confirmed by a frozen model of the known-defective
 behaviour (prediction == observation); anything the models do not reproduce is unclassified.
 """
+import gzip
 import re
 import urllib.parse
+import zlib
+
+import brotli
+
+try:
+    from compression import zstd
+except ImportError:  # Python < 3.14
+    from backports import zstd
 
 from mitmproxy import http
 from mitmproxy.net.http import cookies as mcookies
@@ -32,7 +41,7 @@ TECHNIQUE = "round trip through the real view setters/getters; before/after inte
 BUDGET = {"quick": (10_000, 16), "thorough": (150_000, 200)}
 WORKERS = {"quick": 2, "thorough": 16}
 VIEWS = ["query", "cookies", "setcookie", "form", "multipart", "path"]
-REQUIRED = [f"{v}.assign_readback" for v in VIEWS] + [f"{v}.writeback" for v in VIEWS]
+REQUIRED = [f"{v}.assign_readback" for v in VIEWS] + [f"{v}.writeback" for v in VIEWS] + [f"{v}.item_edit" for v in ("query", "cookies", "form", "multipart")]
 RULE = (
     "case = (view, mode). mode assign: random pair list in the wire format's domain (query/form/path: any str incl. separators, "
     "%, +, NUL, CR/LF, non-ASCII, surrogate-escaped bytes, empty; cookies: token names, printable values incl. quotes ; , \\ "
@@ -62,18 +71,83 @@ LEVEL_NOTE = "Trusted: vf/ref/c34_wire.py (own parsers, cross-checked against ur
 # =============================================================================================
 
 
-def mk_request(path=b"/p", headers=(), content=b"", method=b"POST"):
-    return http.Request(
+ENCODINGS = [b"gzip", b"deflate", b"br", b"zstd"]
+
+
+def gen_enc(r):
+    """Content-Encoding of the message under test: none (60%) or one of the codings mitmproxy handles."""
+    return r.choice(ENCODINGS) if r.random() < 0.4 else None
+
+
+def compress(enc: bytes, body: bytes) -> bytes:
+    """Own compression for wire samples (stdlib / the codec libraries themselves, not mitmproxy.net.encoding)."""
+    if enc == b"gzip":
+        return gzip.compress(body, mtime=0)
+    if enc == b"deflate":
+        return zlib.compress(body)
+    if enc == b"br":
+        return brotli.compress(body)
+    return zstd.compress(body)
+
+
+def decompress(enc: bytes, raw: bytes) -> bytes:
+    if enc == b"gzip":
+        return gzip.decompress(raw)
+    if enc == b"deflate":
+        return zlib.decompress(raw)
+    if enc == b"br":
+        return brotli.decompress(raw)
+    if enc == b"zstd":
+        return zstd.decompress(raw)
+    raise ValueError(enc)
+
+
+def body_of(msg):
+    """The message body after removing the Content-Encoding (independent decoding); raw bytes if there is none."""
+    raw = msg.raw_content
+    encs = header_values(msg, b"content-encoding")
+    if raw is None or not encs:
+        return raw
+    try:
+        return decompress(encs[0].strip().lower(), raw)
+    except Exception as e:  # noqa
+        return ("undecodable", type(e).__name__, raw)
+
+
+def _with_encoding(headers, content, enc, via_setter):
+    headers = list(headers)
+    if enc:
+        headers.append((b"Content-Encoding", enc))
+        if not via_setter and content is not None:
+            content = compress(enc, content)
+            headers = [(n, str(len(content)).encode()) if n.lower() == b"content-length" else (n, v) for n, v in headers]
+    return headers, content
+
+
+def mk_request(path=b"/p", headers=(), content=b"", method=b"POST", enc=None, via_setter=False):
+    """enc: Content-Encoding to declare. via_setter: the body is assigned through Message.content (mitmproxy compresses it),
+    otherwise the raw body is compressed here, as a client would send it."""
+    headers, raw = _with_encoding(headers, content, enc, via_setter)
+    late = enc and via_setter and content is not None
+    req = http.Request(
         host="example.com", port=80, method=method, scheme=b"http", authority=b"", path=path, http_version=b"HTTP/1.1",
-        headers=http.Headers(list(headers)), content=content, trailers=None, timestamp_start=0.0, timestamp_end=0.0,
+        headers=http.Headers(headers), content=b"" if late else raw, trailers=None, timestamp_start=0.0, timestamp_end=0.0,
     )
+    if late:
+        req.content = content
+    return req
 
 
-def mk_response(headers=(), content=b""):
-    return http.Response(
-        http_version=b"HTTP/1.1", status_code=200, reason=b"OK", headers=http.Headers(list(headers)), content=content,
+def mk_response(headers=(), content=b"", enc=None, via_setter=False):
+    headers, raw = _with_encoding(headers, content, enc, via_setter)
+    late = enc and via_setter and content is not None
+    resp = http.Response(
+        http_version=b"HTTP/1.1", status_code=200, reason=b"OK", headers=http.Headers(headers), content=b"" if late else raw,
         trailers=None, timestamp_start=0.0, timestamp_end=0.0,
     )
+    if late:
+        resp.content = content
+    return resp
 
 
 OTHER_HEADERS = [(b"X-Other", b"1"), (b"Accept", b"*/*"), (b"x-other", b"2; a=b"), (b"User-Agent", b"t\xc3\xa9st")]
@@ -167,8 +241,10 @@ def meaning(msg) -> dict:
     m["headers_other"] = [(n.lower(), v) for n, v in msg.headers.fields if n.lower() not in skip]
     mt, boundary = media_type(msg)
     m["media_type"] = (mt, boundary if mt == b"multipart/form-data" else None)
-    body = msg.raw_content
-    if mt == b"application/x-www-form-urlencoded":
+    body = body_of(msg)
+    if isinstance(body, tuple):
+        m["body"] = body  # Content-Encoding present but the body does not decode
+    elif mt == b"application/x-www-form-urlencoded":
         m["body"] = ("urlencoded", W.parse_urlencoded(body))
     elif mt == b"multipart/form-data" and boundary:
         parts = W.parse_multipart(boundary, body or b"")
@@ -307,11 +383,13 @@ def report(ctx, kind, witness, mechs):
 
 # ---- view mutation through MultiDictView (generic, case-sensitive keys) ------------------------------
 
-def view_mutation(ctx, r, view_name, get_view, pairs, gen_k, gen_v):
+def view_mutation(ctx, r, view_name, get_view, pairs, gen_k, gen_v, trace=None):
     """Apply one mutation through the live view and the same one on a list; returns the expected list."""
     model = [tuple(p) for p in pairs]
     v = get_view()
     op = r.choice(["add", "insert", "setitem", "delitem", "set_all"])
+    if trace is not None:
+        trace.append(op)
     k = r.choice(model)[0] if model and r.random() < 0.6 else gen_k()
     val = gen_v()
     if op == "add":
@@ -339,6 +417,27 @@ def view_mutation(ctx, r, view_name, get_view, pairs, gen_k, gen_v):
             ctx.violation(f"{view_name}.view-del-keyerror", {"pairs": pairs, "key": k, "raised": raised}, None)
         model = [p for p in model if p[0] != k]
     return op, k, model
+
+
+def item_edit(ctx, r, view_name, msg, get_view, gen_k, gen_v, explain=None):
+    """Edit one item of an existing message through the live view (as an addon does: view[k] = v, add, del ...):
+    what the view reports afterwards must be the same edit applied to what it reported before."""
+    if r.random() < 0.45:
+        return
+    current = tup(get_view().items(multi=True))
+    ctx.count(f"{view_name}.item_edit")
+    trace = []
+    try:
+        op, k, model = view_mutation(ctx, r, view_name, get_view, current, gen_k, gen_v, trace)
+    except (ValueError, TypeError) as e:
+        mechs = explain("raises:" + type(e).__name__ + ":" + trace[0], None, None) if explain else None
+        report(ctx, f"{view_name}.item_edit-raises", {"view_before": current, "op": trace[0], "exc": repr(e)}, mechs)
+        return
+    got = tup(get_view().items(multi=True))
+    if got != tup(model):
+        mechs = explain("differs", model, got) if explain else None
+        report(ctx, f"{view_name}.item_edit", {"view_before": current, "op": op, "key": k, "expected": model, "readback": got, "body": body_of(msg),
+                                               "content_encoding": header_values(msg, b"content-encoding")}, mechs)
 
 
 def _set_all(model, k, vals):
@@ -390,9 +489,10 @@ def gen_raw_target(r, with_query=True):
 
 
 def case_query(ctx, r, mode):
+    enc = gen_enc(r)
     if mode == "assign":
         base = gen_raw_target(r)
-        req = mk_request(path=base, headers=gen_other_headers(r), content=r.choice([b"", b"body"]))
+        req = mk_request(path=base, headers=gen_other_headers(r), content=r.choice([b"", b"body"]), enc=enc, via_setter=True)
         pairs = gen_pairs(r)
         pp_before = W.split_target(base)[0]
         req.query = list(pairs)
@@ -411,7 +511,7 @@ def case_query(ctx, r, mode):
         sample = {"view": "query", "base_path": base, "pairs": pairs, "path_after": req.data.path}
     else:
         base = gen_raw_target(r)
-        req = mk_request(path=base, headers=gen_other_headers(r), content=r.choice([b"", b"body"]))
+        req = mk_request(path=base, headers=gen_other_headers(r), content=r.choice([b"", b"body"]), enc=enc)
         q = W.split_target(base)[1] or b""
         feats = ("wire", tuple(sorted({t for t, c in (("pct", b"%"), ("plus", b"+"), ("bare", b"&"), ("semi", b";"), ("hi", b"\xc3"), ("bad", b"%zz")) if c in q})),
                  size_class(q.count(b"&") + 1 if q else 0), b";" in W.split_target(base)[0], b"#" in base)
@@ -429,7 +529,8 @@ def case_query(ctx, r, mode):
                 mechs = ["writeback-drops-empty-path-params-delimiter"]
         report(ctx, "query.writeback:" + ",".join(changed), {"path_before": path0, "path_after": req.data.path, "changed": {c: [before[c], after[c]] for c in changed}}, mechs)
     sample["path_written_back"] = req.data.path
-    return ("query",) + feats, nontrivial, sample
+    item_edit(ctx, r, "query", req, lambda: req.query, lambda: gen_text(r), lambda: gen_text(r))
+    return ("query", enc) + feats, nontrivial, sample
 
 
 # ---- request cookies -----------------------------------------------------------------------------------
@@ -480,12 +581,13 @@ def gen_wire_cookie_header(r):
 
 
 def case_cookies(ctx, r, mode):
+    enc = gen_enc(r)
     if mode == "assign":
         existing = [(b"Cookie", b"old=1; other=2")] if r.random() < 0.4 else []
         hdrs = gen_other_headers(r) + existing + gen_other_headers(r)
         if r.random() < 0.1:
             hdrs.append((b"cookie", b"second=header"))
-        req = mk_request(path=b"/p?x=1", headers=hdrs, content=b"body")
+        req = mk_request(path=b"/p?x=1", headers=hdrs, content=b"body", enc=enc, via_setter=True)
         pairs = gen_cookie_pairs(r)
         req.cookies = list(pairs)
         got = tup(req.cookies.items(multi=True))
@@ -506,7 +608,7 @@ def case_cookies(ctx, r, mode):
         hdrs = gen_other_headers(r)
         for h in hs:
             hdrs.insert(r.randint(0, len(hdrs)), (r.choice([b"Cookie", b"cookie"]), h.encode("utf-8")))
-        req = mk_request(path=b"/p?x=1", headers=hdrs, content=b"body")
+        req = mk_request(path=b"/p?x=1", headers=hdrs, content=b"body", enc=enc)
         joined = " ".join(hs)
         feats = ("wire", tuple(sorted({t for t, c in (("quoted", '="'), ("esc", "\\"), ("semi-in", '";'), ("bare", "=="), ("uni", "é"), ("nosp", ";")) if c in joined})),
                  size_class(joined.count("=")), len(hs) > 1, False)
@@ -516,7 +618,8 @@ def case_cookies(ctx, r, mode):
     changed, before, after = writeback(ctx, "cookies", req, lambda m: setattr(m, "cookies", list(m.cookies.items(multi=True))), mode, feats)
     if changed:
         report(ctx, "cookies.writeback:" + ",".join(changed), {"headers_before": h0, "headers_after": header_values(req, b"cookie"), "changed": {c: [before[c], after[c]] for c in changed}}, None)
-    return ("cookies",) + feats, nontrivial, sample
+    item_edit(ctx, r, "cookies", req, lambda: req.cookies, lambda: gen_cookie_name(r), lambda: gen_cookie_value(r))
+    return ("cookies", enc) + feats, nontrivial, sample
 
 
 # ---- response cookies (Set-Cookie) ---------------------------------------------------------------------
@@ -599,9 +702,10 @@ def gen_wire_set_cookie(r):
 
 
 def case_setcookie(ctx, r, mode):
+    enc = gen_enc(r)
     if mode == "assign":
         existing = [(b"Set-Cookie", b"old=1; Path=/")] if r.random() < 0.4 else []
-        resp = mk_response(headers=gen_other_headers(r) + existing + gen_other_headers(r), content=b"body")
+        resp = mk_response(headers=gen_other_headers(r) + existing + gen_other_headers(r), content=b"body", enc=enc, via_setter=True)
         cks = gen_set_cookies(r)
         resp.cookies = [(n, (v, mcookies.CookieAttrs(a))) for n, v, a in cks]
         got = [(k, v[0], tup(v[1].fields)) for k, v in resp.cookies.items(multi=True)]
@@ -630,7 +734,7 @@ def case_setcookie(ctx, r, mode):
         hdrs = gen_other_headers(r)
         for h in hs:
             hdrs.insert(r.randint(0, len(hdrs)), (r.choice([b"Set-Cookie", b"set-cookie"]), h.encode("utf-8")))
-        resp = mk_response(headers=hdrs, content=b"body")
+        resp = mk_response(headers=hdrs, content=b"body", enc=enc)
         joined = " ".join(hs).lower()
         feats = ("wire", tuple(sorted({t for t, c in (("quoted", '="'), ("esc", "\\"), ("expires", "expires="), ("path", "path="), ("flag", "secure"), ("ext", "foo=")) if c in joined})),
                  size_class(len(hs)), (), False)
@@ -655,7 +759,7 @@ def case_setcookie(ctx, r, mode):
                     ms.update(p)
             mechs = sorted(ms) if ok and ms else None
         report(ctx, "setcookie.writeback:" + ",".join(changed), {"headers_before": h0, "headers_after": header_values(resp, b"set-cookie"), "changed": {c: [before[c], after[c]] for c in changed}}, mechs)
-    return ("setcookie",) + feats, nontrivial, sample
+    return ("setcookie", enc) + feats, nontrivial, sample
 
 
 # ---- urlencoded form -----------------------------------------------------------------------------------
@@ -665,12 +769,13 @@ def gen_raw_form_body(r):
 
 
 def case_form(ctx, r, mode):
+    enc = gen_enc(r)
     if mode == "assign":
         prior_kind = r.choice(["none", "empty", "text", "form", "form-bare", "json"])
         prior = {"none": None, "empty": b"", "text": b"hello world", "form": b"x=1&y=2", "form-bare": b"x&y=2", "json": b'{"a": "b=c"}'}[prior_kind]
         ct = {"form": b"application/x-www-form-urlencoded", "form-bare": b"application/x-www-form-urlencoded", "json": b"application/json", "text": b"text/plain"}.get(prior_kind)
         hdrs = gen_other_headers(r) + ([(b"Content-Type", ct)] if ct else []) + gen_other_headers(r)
-        req = mk_request(path=b"/p?q=1", headers=hdrs, content=prior)
+        req = mk_request(path=b"/p?q=1", headers=hdrs, content=prior, enc=enc, via_setter=True)
         pairs = gen_pairs(r)
         req.urlencoded_form = list(pairs)
         got = tup(req.urlencoded_form.items(multi=True))
@@ -680,9 +785,9 @@ def case_form(ctx, r, mode):
             prior_text = prior.decode() if prior else ""
             if ("", "") in pairs and has_bare_param(prior_text) and got == tup(p for p in pairs if p != ("", "")):
                 mechs = ["form-empty-name-empty-value-pair-dropped-after-body-with-bare-parameter"]
-            report(ctx, "form.assign_readback", {"prior_body": prior, "pairs": pairs, "readback": got, "content": req.raw_content}, mechs)
+            report(ctx, "form.assign_readback", {"prior_body": prior, "pairs": pairs, "readback": got, "content": body_of(req)}, mechs)
         elif pairs and r.random() < 0.5:
-            body_after_assign = req.raw_content or b""
+            body_after_assign = body_of(req) or b""
             op, k, model = view_mutation(ctx, r, "form", lambda: req.urlencoded_form, pairs, lambda: gen_text(r), lambda: gen_text(r))
             ctx.count("form.view_op")
             got2 = tup(req.urlencoded_form.items(multi=True))
@@ -691,21 +796,21 @@ def case_form(ctx, r, mode):
                 # the body written by the first assignment is what the next write is made "similar to"
                 if ("", "") in model and has_bare_param(body_after_assign.decode()) and got2 == tup(p for p in model if p != ("", "")):
                     mechs = ["form-empty-name-empty-value-pair-dropped-after-body-with-bare-parameter"]
-                report(ctx, "form.view_op", {"pairs": pairs, "op": op, "key": k, "expected": model, "readback": got2, "content": req.raw_content}, mechs)
+                report(ctx, "form.view_op", {"pairs": pairs, "op": op, "key": k, "expected": model, "readback": got2, "content": body_of(req)}, mechs)
         feats = ("assign", text_features([s for p in pairs for s in p]), size_class(len(pairs)), prior_kind, ("", "") in pairs)
         nontrivial = bool(pairs) and bool(feats[1])
-        sample = {"view": "form", "prior_body": prior, "pairs": pairs, "content": req.raw_content}
+        sample = {"view": "form", "prior_body": prior, "pairs": pairs, "content": body_of(req)}
     else:
         body = gen_raw_form_body(r)
         ct = r.choice([b"application/x-www-form-urlencoded", b"application/x-www-form-urlencoded", b"Application/X-WWW-Form-Urlencoded", b"application/x-www-form-urlencoded; charset=utf-8",
                        b"application/x-www-form-urlencoded;charset=UTF-8"])
         hdrs = gen_other_headers(r) + [(r.choice([b"Content-Type", b"content-type"]), ct), (b"Content-Length", str(len(body)).encode())] + gen_other_headers(r)
-        req = mk_request(path=b"/p?q=1", headers=hdrs, content=body)
+        req = mk_request(path=b"/p?q=1", headers=hdrs, content=body, enc=enc)
         feats = ("wire", tuple(sorted({t for t, c in (("pct", b"%"), ("plus", b"+"), ("amp", b"&"), ("semi", b";"), ("hi", b"\xc3"), ("bad", b"%zz"), ("raw-ff", b"\xff")) if c in body})),
                  size_class(body.count(b"&") + 1 if body else 0), b"charset" in ct.lower(), has_bare_param(body.decode("utf-8", "surrogateescape")))
         nontrivial = bool(body) and bool(feats[1])
         sample = {"view": "form", "wire_body": body, "content_type": ct}
-    c0 = req.raw_content
+    c0 = body_of(req)
     charset_declared = any(b"charset" in v.lower() for v in header_values(req, b"content-type"))
     changed, before, after = writeback(ctx, "form", req, lambda m: setattr(m, "urlencoded_form", list(m.urlencoded_form.items(multi=True))), mode, feats)
     if changed:
@@ -726,8 +831,9 @@ def case_form(ctx, r, mode):
                 if cms and after["body"] == ("urlencoded", cpred):
                     mechs = cms
                     break
-        report(ctx, "form.writeback:" + ",".join(changed), {"content_before": c0, "content_after": req.raw_content, "changed": {c: [before[c], after[c]] for c in changed}}, mechs)
-    return ("form",) + feats, nontrivial, sample
+        report(ctx, "form.writeback:" + ",".join(changed), {"content_before": c0, "content_after": body_of(req), "changed": {c: [before[c], after[c]] for c in changed}}, mechs)
+    item_edit(ctx, r, "form", req, lambda: req.urlencoded_form, lambda: gen_text(r), lambda: gen_text(r))
+    return ("form", enc) + feats, nontrivial, sample
 
 
 # ---- multipart form ------------------------------------------------------------------------------------
@@ -811,12 +917,13 @@ def gen_wire_multipart(r, boundary):
 
 
 def case_multipart(ctx, r, mode):
+    enc = gen_enc(r)
     if mode == "assign":
         preset = r.random() < 0.5
         boundary = r.choice(BOUNDARIES) if preset else None
         prior = r.choice([b"", b"old body"])
         hdrs = gen_other_headers(r) + ([(b"Content-Type", b"multipart/form-data; boundary=" + gen_ct_boundary_param(r, boundary))] if preset else r.choice([[], [(b"Content-Type", b"text/plain")]])) + gen_other_headers(r)
-        req = mk_request(path=b"/upload?q=1", headers=hdrs, content=prior)
+        req = mk_request(path=b"/upload?q=1", headers=hdrs, content=prior, enc=enc, via_setter=True)
         pairs = gen_mp_pairs(r, boundary)
         try:
             req.multipart_form = list(pairs)
@@ -836,16 +943,16 @@ def case_multipart(ctx, r, mode):
                 if pred is not None and got == tup(pred):
                     mechs = (bmech or mp_value_predicates([v for _, v in pairs], b_now)) or None
                     break
-            report(ctx, "multipart.assign_readback", {"boundary": b_now, "pairs": pairs, "readback": got, "content": req.raw_content}, mechs)
+            report(ctx, "multipart.assign_readback", {"boundary": b_now, "pairs": pairs, "readback": got, "content": body_of(req)}, mechs)
         feats = ("assign", mp_features([v for _, v in pairs]), size_class(len(pairs)), preset, any(boundary in v for _, v in pairs) if boundary else False)
         nontrivial = bool(pairs) and (bool(feats[1]) or any(c in n for n, _ in pairs for c in (b" ", b"'", b"\\", b"\xff", b"\xc3\xa9", b";")))
-        sample = {"view": "multipart", "pairs": pairs, "boundary": b_now, "content": req.raw_content}
+        sample = {"view": "multipart", "pairs": pairs, "boundary": b_now, "content": body_of(req)}
     else:
         boundary = r.choice(BOUNDARIES)
         body, parts = gen_wire_multipart(r, boundary)
         ct = r.choice([b"multipart/form-data; boundary=", b"multipart/form-data;boundary=", b"multipart/form-data; charset=utf-8; boundary=", b"Multipart/Form-Data; boundary="]) + gen_ct_boundary_param(r, boundary)
         hdrs = gen_other_headers(r) + [(b"Content-Type", ct), (b"Content-Length", str(len(body)).encode())]
-        req = mk_request(path=b"/upload?q=1", headers=hdrs, content=body)
+        req = mk_request(path=b"/upload?q=1", headers=hdrs, content=body, enc=enc)
         feats = ("wire", mp_features([p[3] for p in parts]), size_class(len(parts)), any(p[1] is not None for p in parts), any(p[2] is not None for p in parts))
         nontrivial = bool(parts)
         sample = {"view": "multipart", "wire_body": body, "content_type": ct}
@@ -853,7 +960,7 @@ def case_multipart(ctx, r, mode):
         if ref_parts is None or [(p.name, p.filename, p.ctype, p.value) for p in ref_parts] != parts:
             from vf.core import Inconclusive
             raise Inconclusive(f"reference multipart reader disagrees with the generator: {body!r}")
-    c0 = req.raw_content
+    c0 = body_of(req)
     mt0, b0 = media_type(req)
     current = list(req.multipart_form.items(multi=True))
     try:
@@ -884,16 +991,34 @@ def case_multipart(ctx, r, mode):
                         ms += mp_value_predicates([v for _, _, _, v in bparts], b0)
                     mechs = ms or None
                     break
-        report(ctx, "multipart.writeback:" + ",".join(changed), {"content_before": c0, "content_after": req.raw_content, "boundary": b0, "changed": {c: [before[c], after[c]] for c in changed}}, mechs)
-    return ("multipart",) + feats, nontrivial, sample
+        report(ctx, "multipart.writeback:" + ",".join(changed), {"content_before": c0, "content_after": body_of(req), "boundary": b0, "changed": {c: [before[c], after[c]] for c in changed}}, mechs)
+    def explain(what, model, got):
+        raw_b = raw_boundary_param(req)
+        if what in ("raises:TypeError:add", "raises:TypeError:insert"):
+            # the multipart getter hands out a list, MultiDict.insert (and add, built on it) concatenates tuples
+            return ["multipart-view-add-or-insert-raises-typeerror"]
+        if what.startswith("raises:ValueError"):
+            return mp_refusal_predicates([v for _, v in req.multipart_form.items(multi=True)], raw_b)
+        if what.startswith("raises") or not raw_b or not b0:
+            return None
+        for dec_b, enc_b, bmech in boundary_variants(raw_b, b0):
+            pred = model_mp_decode(dec_b, model_mp_encode(enc_b, model))
+            if pred is not None and got == tup(pred):
+                return (bmech or mp_value_predicates([v for _, v in model], b0)) or None
+        return None
+
+    item_edit(ctx, r, "multipart", req, lambda: req.multipart_form, lambda: b"".join(r.choice([b"a", b"b", b"user", b"f1"]) for _ in range(r.choice([1, 1, 2]))),
+              lambda: b"".join(r.choice([b"x", b"y", b"1", b" ", b"=", b"\xc3\xa9"]) for _ in range(r.choice([0, 1, 3, 6]))), explain)
+    return ("multipart", enc) + feats, nontrivial, sample
 
 
 # ---- path components -----------------------------------------------------------------------------------
 
 def case_path(ctx, r, mode):
+    enc = gen_enc(r)
     if mode == "assign":
         base = gen_raw_target(r)
-        req = mk_request(path=base, headers=gen_other_headers(r), content=b"body")
+        req = mk_request(path=base, headers=gen_other_headers(r), content=b"body", enc=enc, via_setter=True)
         comps = [gen_text(r) if r.random() < 0.9 else r.choice([".", "..", "a/b", "%2F", " "]) for _ in range(r.choice([0, 1, 1, 2, 3, 5]))]
         req.path_components = list(comps)
         got = tuple(req.path_components)
@@ -912,7 +1037,7 @@ def case_path(ctx, r, mode):
         sample = {"view": "path", "base_path": base, "components": comps, "path_after": req.data.path}
     else:
         base = gen_raw_target(r)
-        req = mk_request(path=base, headers=gen_other_headers(r), content=b"body")
+        req = mk_request(path=base, headers=gen_other_headers(r), content=b"body", enc=enc)
         pp = W.split_target(base)[0]
         segs = W.path_segments(pp)
         feats = ("wire", tuple(sorted({t for t, c in (("pct", b"%"), ("semi", b";"), ("hi", b"\xc3"), ("ff", b"\xff"), ("plus", b"+"), ("dot", b"/.")) if c in pp})), size_class(len(segs)),
@@ -943,7 +1068,7 @@ def case_path(ctx, r, mode):
             if ms and after["segments"] == pred:
                 mechs = ms
         report(ctx, "path.writeback:" + ",".join(changed), {"path_before": path0, "path_after": req.data.path, "changed": {c: [before[c], after[c]] for c in changed}}, mechs)
-    return ("path",) + feats, nontrivial, sample
+    return ("path", enc) + feats, nontrivial, sample
 
 
 CASES = {"query": case_query, "cookies": case_cookies, "setcookie": case_setcookie, "form": case_form, "multipart": case_multipart, "path": case_path}
